@@ -12,10 +12,11 @@ RULE = (
     "explicit-state BFS over update histories with a lock-step twin: roots = fabric(6) x "
     "dislocation-type regime(2) x all points within <=1 deviation of the default over (texture(8: one an int64 array, one in Fortran order, one a transposed view), "
     "volumes(3, one an int64 array), n_grains(5: 5,2,3,8,1), parameter set {default, M*=200 & chi=0.9, chi=0, M*=0}); EVERY k in "
-    "{1e-16,1e-15,1e-12,1e-8,1e-4,1e-2,10,1e3}; ALL sequences to depth 2 (quick) / 3 (thorough) over "
+    "{1e-16,1e-15,1e-12,1e-8,1e-4,1e-2,10,1e3} (quick tier: on the deviated roots k in {1e-16,1e-8,10,1e3}); ALL sequences to depth 2 (quick) / 3 (thorough) over "
     "the 12 update letters (6 flows incl. time- and position-dependent x 2 strain increments) and one interval run backwards in time, plus "
     "the partition letters (a span split into 1,2,5 updates), plus callables that hand out STORED "
-    "array objects (constants and views into a piecewise-constant table; depth 2, 9 k incl. 1). After every update the twin's stored "
+    "array objects (constants and views into a piecewise-constant table; depth 2, 9 k incl. 1), plus the "
+    "increments of F and of the texture over single updates of strain 5e-6 and 1e-7 for every k. After every update the twin's stored "
     "snapshot and returned F are compared with the primary's. Non-trivial: k != 1 and the update "
     "changed the texture; distinct = reached state."
 )
@@ -27,6 +28,7 @@ ASSUMPTIONS = [
 BOUND = {"quick": "8 k letters, depth 2, <=1 root deviation, n_grains <= 8", "thorough": "depth 3, <=1 root deviation"}
 
 KS = ["1e-16", "1e-15", "1e-12", "1e-8", "1e-4", "1e-2", "10", "1e3"]
+KS_DEV = ["1e-16", "1e-8", "10", "1e3"]
 PRMS = ["default", "M200chi0.9", "chi0", "M0"]
 
 
@@ -41,7 +43,10 @@ def warmup():
 def gen_cases(tier, seed):
     keys = []
     for k in H.root_keys(tier, ["disl", "yield"], dev=1, prms=PRMS):
-        for kk in KS:
+        default_root = (k["tex"], k["vol"], k["ng"], k["prm"]) == ("random", "uniform", 5, "default")
+        # quick tier: every k on the default root of each fabric x regime, the 4 corner values
+        # of the k range on the deviated roots (keeps the quick tier near 3 minutes)
+        for kk in KS if (default_root or tier != "quick") else KS_DEV:
             keys.append(dict(k, k=kk, depth=2 if tier == "quick" else 3))
     for fab in alph.FABRICS:
         for kk in KS:
@@ -54,6 +59,12 @@ def gen_cases(tier, seed):
         for reg in ("disl", "yield"):
             for kk in KS + ["1"]:
                 keys.append(dict(part="stored", fab=fab, reg=reg, tex="random", vol="uniform", ng=5, prm="default", k=kk))
+    # very short updates: the INCREMENT of F and of the texture over one update of strain 5e-6
+    # must not depend on the rate (at k = 1e3 the interval is 5e-9 long; seed C05g: intervals
+    # compared with an absolute tolerance in time units)
+    for fab in alph.FABRICS:
+        for reg in ("disl", "yield"):
+            keys.append(dict(part="tiny", fab=fab, reg=reg, tex="random", vol="uniform", ng=5, prm="default", k="all"))
     return keys
 
 
@@ -82,7 +93,50 @@ def stored_flows(k):
     return out
 
 
+def run_tiny(key):
+    res = empty_result()
+    ph, fb = alph.FABRICS[key["fab"]]
+    prm = H.params_for(ph, key["prm"])
+    fl = H.flow("gen")
+    F0 = H.f0("generic")
+    obs = []
+    for dt in (5e-6, 1e-7):
+        m = H.build_mineral(key)
+        Fa = np.asarray(H.update(m, prm, F0.copy(), fl, 0.0, dt))
+        dFa, dAa, dfa = Fa - F0, m.orientations[-1] - m.orientations[0], m.fractions[-1] - m.fractions[0]
+        res["n"] += 1
+        for kk in KS:
+            kf = float(kk)
+            mt = H.build_mineral(key)
+            res["n"] += 1
+            res["trans"] += 1
+            res["clauses"]["increment_same"] = res["clauses"].get("increment_same", 0) + 1
+            try:
+                Fb = np.asarray(H.update(mt, prm, F0.copy(), H.scaled_flow(fl, kf), 0.0, dt / kf))
+            except Exception as e:
+                H.V(res, key, "increment_same", {"exception": type(e).__name__, "msg": str(e)[:150]}, k=kk, dt=dt)
+                continue
+            dFb, dAb, dfb = Fb - F0, mt.orientations[-1] - mt.orientations[0], mt.fractions[-1] - mt.fractions[0]
+            devs = {
+                "F": float(np.abs(dFb - dFa).max() / np.abs(dFa).max()),
+                "orientations": float(np.abs(dAb - dAa).max() / max(np.abs(dAa).max(), 1e-300)),
+                "fractions": float(np.abs(dfb - dfa).max() / max(np.abs(dfa).max(), 1e-300)),
+            }
+            res["notes"]["max_increment_rel_dev"] = max(res["notes"].get("max_increment_rel_dev", 0.0), *devs.values())
+            if not max(devs.values()) <= 1e-3:
+                H.V(res, key, "increment_same", dict(devs, increment_F=float(np.abs(dFa).max()), increment_F_twin=float(np.abs(dFb).max())), k=kk, dt=dt)
+            obs.append(Fb)
+        res["states"] += 1
+    res["nontrivial"].append(digest(key))
+    res["outcomes"].append(digest(*[np.round(o, 12) for o in obs]))
+    res["obs"] = digest(*obs)
+    res["sample"] = {"case": key}
+    return res
+
+
 def run_case(key):
+    if key["part"] == "tiny":
+        return run_tiny(key)
     res = empty_result()
     ph, fb = alph.FABRICS[key["fab"]]
     n = key["ng"]
